@@ -30,6 +30,7 @@ func (b *buffer) getAny(fields map[Ident]func() wireType, addProp func(UserProp)
 	b.get(&propLen)
 	end := b.i + int(propLen)
 	var id Ident
+	var seen [256]bool
 	for b.i < end {
 		b.get(&id)
 		// first failure stops the parsing
@@ -38,6 +39,14 @@ func (b *buffer) getAny(fields map[Ident]func() wireType, addProp func(UserProp)
 		}
 		field, hasField := fields[id]
 		if hasField {
+			// including one of these properties more than once is a
+			// protocol error; decoding it again into the same field
+			// would also move on by the width of the earlier value
+			if seen[id] {
+				b.err = fmt.Errorf("property id 0x%02x more than once", id)
+				return
+			}
+			seen[id] = true
 			b.get(field())
 			continue
 		}
